@@ -214,13 +214,26 @@ ROUND2 = {
     'C20': "the monthly (year, month) candidate is this or next month with an exact year carry for all 12 months; a due event's node is queued on every path; every timer is armed with a wrapper constructed for it; the boot token tested and stored identifies the event (not just the algorithm name); every constructed moment is aware by construction; an unknowable event skips only itself",
 }
 
+ROUND5 = {
+    'C02': 'organize stamps every scheduled node with the run id of the event unconditionally',
+    'C05': 'every reply a worker makes takes job id, run id, timing and target from the task message it answers',
+    'C07': 'no function of the database layer has a default argument evaluated at import (a call or a run-time-assigned context setting)',
+    'C09': 'scan.advanced_factories collects every factory that is left on a task package',
+    'C10': 'the continuation handed to db.archive reaches the completion step; a failed submission is latched and no later step fires running_trigger without testing the latch',
+    'C14': 'a stateless (peek style) reassembly loop is decided by linear constraints over header size, decoded length and buffer length; blocking receivers keep no per-call read-ahead; no challenge / channel helper has a default argument evaluated at import',
+    'C16': 'rule_08 tests the factory of a reference with inspect.isfunction / ismethod',
+    'C17': 'every given name constraint adds its WHERE term and argument in the PostgreSQL search',
+    'C19': 'the certificate handed to sanctioned derives from the transport peer certificate on every path',
+    'C20': 'rule_10 and _delay classify boot events by the same kind of predicate',
+}
+
 # rules of sibling properties that are necessary conditions of this property as well and are evaluated under it too
 # (DESIGN 8.9); the rule keeps its home id
 BORROWED = {
-    'C01': 'R-C03-2 (a batch entry that keeps its do set is handed over again)',
-    'C02': 'R-C03-2 (a released job never falls out of the batch), R-C09-4 (Node.trim keeps every consumer edge), R-C06-3 (load fallback)',
-    'C03': 'R-C01-2 (task messages are made from the released targets), R-C11-1/2/4/5 (only registered, connected, idle hands are paired, one task each), R-C02-1/2 (a new-value report queues every consumer)',
-    'C04': 'R-C03-4/5 (busy entries are retired, a cloud job is hired or handed back), R-C12-3/4 (poller slots are released)',
+    'C01': 'R-C03-2 (a batch entry that keeps its do set is handed over again), R-C03-6 (doing shrinks only where the reply is applied; the purge finding is known for C01 too)',
+    'C02': 'R-C03-2 (a released job never falls out of the batch), R-C09-4 (Node.trim keeps every consumer edge), R-C06-3 (load fallback), R-C07-1 (the store name is the digest of the whole staged file)',
+    'C03': 'R-C01-2 (task messages are made from the released targets), R-C11-1/2/4/5 (only registered, connected, idle hands are paired, one task each), R-C02-1/2 (a new-value report queues every consumer), R-C14-1 (a reply frame is parsed only when it is complete)',
+    'C04': 'R-C03-4/5 (busy entries are retired, a cloud job is hired or handed back), R-C12-3/4 (poller slots are released), R-C15-4 (every node owns its work sets)',
     'C05': 'R-C18-10 (the chronicle refuses an entry only for missing keys)',
     'C06': 'R-C07-5 (no stored file is removed behind the catalogue), R-C08-1 (ids are allocated once)',
     'C11': 'R-C03-2/5 (unplaced work stays queued), R-C08-2 (the next run id exceeds every stored one)',
@@ -243,6 +256,8 @@ def main():
         tech, dec, nd = TABLE[pid]
         if pid in ROUND2:
             dec = dec + '; ' + ROUND2[pid]
+        if pid in ROUND5:
+            dec = dec + '; ' + ROUND5[pid]
         if pid in BORROWED:
             dec = dec + '; also evaluated here, borrowed from the sibling property that owns the mechanism: ' + BORROWED[pid]
         checks.append(
